@@ -63,6 +63,10 @@ def run(ck: Checker, prog: Program, tier: str):
     from . import c10
     with ck.borrow(c10, "C17.R1+"):
         ck.guard(c10._filter_design, ck, prog)
+    # the density accounts for the mean-square of the windows that were given: processing does not alter them first
+    from . import c09
+    with ck.borrow(c09, "C17.R1+"):
+        ck.guard(c09._entry_effects, ck, prog, ("R1",))
 
 
 def _settings_delivery(ck: Checker, prog: Program):
@@ -628,7 +632,7 @@ def _transforms(ck: Checker, prog: Program):
     from ..resolve import Resolver as _Res, canon as _canon
     h_ok = False
     hcalls = [c for c in calls_in(r.node, "_h")]
-    if len(hcalls) == 1 and hcalls[0].args and unparse(hcalls[0].func.value) == r.params[1]:
+    if len(hcalls) == 1 and hcalls[0].args and unparse(hcalls[0].func.value) == "instrument_transfer_function" and "instrument_transfer_function" in list(r.params) + list(r.kwonly):
         RR = _Res(prog, r, inline=False)
         got_f = _canon(RR.value(hcalls[0].args[0], hcalls[0]))
         want_f = [_canon(RR.expect(src)) for src in ("np.fft.rfftfreq(fft_settings.get('n', timeseries.n_samples), d=timeseries.dt_in_seconds)",
